@@ -213,7 +213,7 @@ open MiniconfVerif.Gen MiniconfVerif.Gen.Core MiniconfVerif.GenTie in
 /-- One pass through the `loop` of `NodeIter::next` **as translated from iter.rs** is the model's
 `IterSt.step` (on which `limited_exact`, `rooted_exact`, `fused`, … are proved), for every type, target,
 depth limit and state, given that the two `M::transcode` calls return what the model's transcoding returns
-(no panic: `C16.traverse_total`).  `NodeIter::default()` and the assignments of `root()` are the model's. -/
+(no panic: `C16.traverse_total`).  `NodeIter::default()` is the model's (`root()`: `source_root_is_model`). -/
 theorem source_next_is_model (s : Schema) (D : Nat) (fresh : Target) (it : IterSt)
     (hlen : it.state.length = D)
     (tcN : List Nat → Except Traversal (Target × Node)) (tcU : List Nat → Except Traversal (Unit × Node))
@@ -222,6 +222,19 @@ theorem source_next_is_model (s : Schema) (D : Nat) (fresh : Target) (it : IterS
     stepOfCtl (NodeIter.next_body D tcN tcU (itToGen it)) = (it.step s D fresh).erase ∧
     NodeIter.default D = itToGen (IterSt.init D) :=
   ⟨next_body_tie s D fresh it hlen tcN tcU hN hU, rfl⟩
+
+open MiniconfVerif.Gen MiniconfVerif.Gen.Core MiniconfVerif.GenTie in
+/-- **`NodeIter::root` as translated from iter.rs is the model's `withRoot` on EVERY iterator**, fresh, partially
+consumed, exhausted or already rooted elsewhere (`it0` is arbitrary): given that the slice transcoding of the root key
+into the cleared state returns what the model's transcoding into `D` index slots returns, `root()` is `withRoot` — so
+`rooted_exact` / `rooted_limited_exact` describe iteration after *any* history of `next()` and `root()` calls. (On the
+pinned tree before the fix the state was not cleared and re-rooting a used iterator skipped leaves: finding F6.) -/
+theorem source_root_is_model (s : Schema) (D : Nat) (ks : KeySrc) (it0 : IterSt)
+    (tc : List Nat → List Nat × Except Traversal Node) (h : TcStateRel s D ks tc) :
+    match IterSt.withRoot s D ks with
+    | .ok it => NodeIter.reroot D tc (itToGen it0) = .ok (itToGen it)
+    | .error e => ∃ e', travToGen e = some e' ∧ NodeIter.reroot D tc (itToGen it0) = .error e' :=
+  root_tie s D ks it0 tc h
 
 theorem exactCountsM_eq (l : List Polled) (c : Nat) : GenTie.exactCountsM l c = exactCounts l c := by
   induction l generalizing c with
